@@ -123,6 +123,9 @@ def run(chk, facts):
                                    " for the stream Id, Comment, NL, Comment, Int, Comment")
         except NoEval as ex:
             why_f = f"could not be evaluated ({ex})"
+        unc_f = [u for u in ev.uncovered() if not u.startswith("from_str:")]      # from_str itself goes on into the parser; its helpers are what is folded
+        chk.ob("R-C14-1", "from_str:fold-covers-every-branch", not unc_f, "the token stream reaches every branch of the comment filter" if not unc_f else
+               f"the token stream does not reach {len(unc_f)} branch(es) of the filtering, e.g. {unc_f[0]}", loc)
         chk.ob("R-C14-1", "from_str:filter-comments", ok, "AST::from_str hands the parser the token stream without its comments, in order" if ok else
                f"AST::from_str no longer filters Token::Comment out of the token vector: {why_f}", loc)
         chk.ob("R-C14-1", "from_str:iterator-over-filtered", ok, "the parser iterates the filtered vector" if ok else "LexIterator::new is no longer built from the filtered tokens", loc)
